@@ -673,6 +673,10 @@ func (s *TaintState) flowCall(f *ssa.Function, call ssa.CallInstruction, add fun
 					}
 				}
 			}
+			// an append that runs or not depending on network data makes the length network-chosen
+			if in, ok := call.(ssa.Instruction); ok && in.Block() != nil && s.ctrlTainted(f, in.Block()) {
+				t |= TL
+			}
 			s.setResult(call, 0, t)
 		case "min", "max":
 			var t Taint
